@@ -102,8 +102,8 @@ pub fn ref_eval(e: &E) -> Option<i64> {
 
 fn leaves(tier: Tier) -> Vec<E> {
     match tier {
-        Tier::Quick => vec![lit(0), lit(1), lit(3), E::Lit(0x10, true), E::Lit(0xff, true), E::CharLit("A".into(), 65)],
-        Tier::Thorough => vec![lit(0), lit(1), lit(2), lit(3), lit(5), E::Lit(0x10, true), E::Lit(0x7f, true), E::Lit(0xff, true), E::CharLit("A".into(), 65), E::Sizeof("short".into(), 2)],
+        Tier::Quick => vec![lit(0), lit(1), lit(3), E::Lit(0x10, true), E::Lit(0xff, true), E::CharLit("A".into(), 65), lit(8)],
+        Tier::Thorough => vec![lit(0), lit(1), lit(2), lit(3), lit(5), E::Lit(0x10, true), E::Lit(0x7f, true), E::Lit(0xff, true), E::CharLit("A".into(), 65), E::Sizeof("short".into(), 2), lit(8)],
     }
 }
 
@@ -157,6 +157,14 @@ fn d2(l: &[E], d1: &[E], side: &[E]) -> Vec<E> {
         v.push(cond(l[0].clone(), l[2].clone(), x.clone()));
         v.push(cond(l[1].clone(), cond(l[0].clone(), l[2].clone(), x.clone()), l[3].clone()));
     }
+    // every truth combination of a ternary nested in the middle / last operand of another one
+    for outer in [0usize, 1] {
+        for inner in [0usize, 1] {
+            v.push(cond(l[outer].clone(), cond(l[inner].clone(), l[2].clone(), l[3].clone()), l[4 % l.len()].clone()));
+            v.push(cond(l[outer].clone(), l[2].clone(), cond(l[inner].clone(), l[3].clone(), l[4 % l.len()].clone())));
+            v.push(cond(cond(l[outer].clone(), l[inner].clone(), l[1 - inner].clone()), l[2].clone(), l[3].clone()));
+        }
+    }
     v
 }
 
@@ -203,6 +211,19 @@ pub fn cases(tier: Tier) -> Vec<CCase> {
         "1 / 0", "5 / (3 - 3)", "(1 / 0) + 1", "1 + 2 / 0", "99999999999", "0xfffffffff", "077777777777777", "1 << 40", "1 << 32", "1 >> 32", "65536 * 65536", "2147483647 + 1", "-2147483647 - 2", "3 / 0 * 0", "0 ? 1 / 0 : 2",
     ] {
         v.push(CCase { pos: Pos::MustReject, e: lit(0), text: Some(t.to_string()) });
+    }
+    // values beyond 16 bits (the operands of a shift, a division, a comparison, a logical operator are not
+    // byte-wise): same value in a constant and folded in a statement
+    for (t, val) in [
+        ("2147483647 > -1", 1), ("2147483647 >= -1", 1), ("-1 < 2147483647", 1), ("-2147483647 < 2147483647", 1), ("-2147483647 <= 1", 1), ("2147483647 < -1", 0), ("-1 > 2147483647", 0),
+        ("(0x7fffffff >= -1) ? 2 : 3", 2), ("(1 << 9) >> 8", 2), ("(3 << 8 | 0x20) >> 8", 3), ("(1 << 10) / 8", 128), ("(1 << 8) > 0", 1), ("(1 << 12) ? 5 : 6", 5), ("!(1 << 8)", 0),
+        ("(1 << 15) >> 15", 1), ("(256 * 255) >> 8", 255), ("65535 / 256", 255), ("(1 << 16) >> 16", 1), ("(1 << 30) >> 29", 2), ("0x10000 > 1", 1), ("0x10000 == 0", 0), ("!0x10000", 0),
+        ("0x10000 ? 1 : 2", 1), ("0x10000 && 1", 1), ("0 || 0x10000", 1), ("(0x12345 >> 8) & 0xff", 0x23), ("0x12345 / 0x100", 0x123), ("(2 << 14) == 32768", 1), ("-32768 < 32767", 1), ("40000 > 30000", 1),
+        ("2 || 0", 1), ("5 || 0", 1), ("0 || 5", 1), ("5 && 3", 1), ("(2 || 0) * 3", 3), ("!5", 0), ("!!5", 1), ("-(1 << 8) < 0", 1), ("~0 < 0", 1), ("(~0) >> 31", -1),
+    ] {
+        for pos in [Pos::ConstShort, Pos::StmtAssign, Pos::StmtIf] {
+            v.push(CCase { pos, e: E::Sizeof(format!("__TEXT__{}__DECL__", t), val), text: Some(t.to_string()) });
+        }
     }
     // sizeof of objects
     for (decl, what, val) in [
